@@ -26,14 +26,13 @@ func init() {
 		Property: "C18",
 		Name:     "connrig",
 		Level:    "exploration",
-		Rule: "each run is one scenario in one synctest bubble over SimLink (in-memory net.Conn; every delivery chunk 1 B..whole, read cap and direction order from the tape): " +
-			"stream = SecretConnection pair, both directions, writes 1 B..5 frames, reads with 0..100 KiB buffers, oracle stream read == stream written; " +
-			"mconn = MConnection pair (raw or layered over SecretConnection + NodeInfo handshake as peer.go does), 1-5 channels, priorities 1-20, queue capacities 1-8/default, packet payload 1 B..32 KiB, " +
-			"uniquely tagged messages 1 B..256 KiB by Send/TrySend one step at a time, oracle per channel delivered sequence == accepted sequence, no onError; " +
-			"auth = handshake under a man in the middle / key-less endpoint / hand-written endpoint, oracle success only if RemotePubKey signed this session's challenge and both ends saw the same ephemeral keys; " +
-			"switch = real p2p.Switch inbound path (listenerRoutine, newPeerConn, HandShakeFunc, newPeer) fed through a fake Listener, oracle peer identity == authenticated key. " +
-			"Non-trivial: stream >= 3 writes and >= 3 reads in a direction and >= 1 KiB moved; mconn >= 3 delivered messages of which one spans >= 2 packets; auth/switch >= 1 handshake ran to a verdict. " +
-			"Fingerprint: scenario, configuration, per-direction stream hashes / per-channel delivered sequences / per-session verdicts.",
+		Rule: "one run = one scenario in one synctest bubble over SimLink (in-memory net.Conn; the driver delivers in-flight bytes in tape-chosen chunks of 1 B..everything, in tape-chosen direction order, only at quiescence; optional per-read cap; per-direction capacity 1 B..200 KiB or unbounded). " +
+			"stream (30%): SecretConnection pair, both directions at once, 1 B..1.5 MiB per direction in writes of 1 B..5 frames (sizes around the 32 KiB frame boundary favoured), reads with 0 B..100 KiB buffers, contents of mixed compressibility; oracle: bytes read == bytes written, in order, nothing after the end; then optionally one bit of a later frame flipped in flight. " +
+			"mconn (40%): MConnection pair, raw or layered over SecretConnection (+ NodeInfo exchange by p2p.HandShakeFunc) as peer.go does; 1-5 channels, priority 1-20 and send-queue capacity 1-8/default per side, packet payload 1 B..32 KiB, flush/ping/pong periods drawn; 5-150 steps of Send/TrySend (uniquely tagged messages 1 B..256 KiB, sizes around multiples of the payload favoured), partial pumping, settling, virtual sleeps; three timing regimes: bounded pipe with unlimited rate (back-pressure, TrySend refusals), rate-limited, all defaults; oracle after every step: per channel the delivered sequence is a prefix of the accepted sequence (whole, unmixed, nothing foreign), onError never called, and after a generous drain everything accepted is delivered. " +
+			"auth (22%): 1-6 handshakes under attack: man in the middle flips/substitutes/replays the ephemeral-key message or edits the auth message (signature or key bits, signature by another key, zero, replayed; key replaced by a victim's or the attacker's), endpoint without the private key of the key it presents (real MakeSecretConnection driven by a fake key object), replayed transcript, reflection, hand-written protocol speaker (wrong challenge, nil key, low-order ephemeral key, oversize/truncated/duplicated frames) with a positive control; oracle: an honest end that returns success holds a RemotePubKey whose private-key holder signed exactly the challenge this end signed (ledger of all real signatures of the run), was not shown a by-construction forged proof for it, and - when it is the other honest end's key - both ends were shown the ephemeral keys the other wrote. " +
+			"switch (8%): real p2p.Switch inbound path fed by a fake Listener; remote side proves one key and claims the same or another one in NodeInfo; oracle: the switch registers a peer only under a key proven on that connection; honest peers then exchange tagged messages through Peer.Send / Reactor.Receive under the mconn oracle. " +
+			"Non-trivial: stream with >= 3 writes, >= 3 reads and >= 1 KiB in a direction; mconn with >= 3 delivered messages of which one spans >= 2 packets; auth/switch with >= 1 handshake brought to a verdict. " +
+			"Fingerprint: scenario, frame mode, configuration, per-direction stream hash / per-channel delivered sequences and accept counts / per-session attack kind and verdict.",
 		Real: []string{
 			"libs/p2p/conn.MakeSecretConnection, SecretConnection.Read/Write (compiled-in frame mode; sealed and raw modes in a labelled minority of runs)",
 			"libs/p2p/conn.MConnection (sendRoutine, recvRoutine, Channel, flush throttle, ping/pong, flowrate limiter) on the bubble's fake clock",
@@ -54,10 +53,10 @@ func init() {
 			"sealed/raw frame modes are reached by writing the unexported package variable conn.leadingType through go:linkname; they are outside the property's quantifier and every violation found there carries /mode=... in its key",
 			"Go 1.26.8 runtime instead of the repository's 1.23 toolchain",
 		},
-		QuickRuns:      2400,
+		QuickRuns:      12000,
 		QuickBudget:    55 * time.Second,
-		ThoroughRuns:   60000,
-		ThoroughBudget: 15 * time.Minute,
+		ThoroughRuns:   130000,
+		ThoroughBudget: 18 * time.Minute,
 		Run:            Run,
 		MaxProcs:       2,
 		RunsPerProcess: 150,
@@ -121,9 +120,19 @@ func (r *runState) violateAnyMode(class, key, format string, args ...interface{}
 	return false
 }
 
+// sleep is a planned (tape-decided) advance of virtual time; it is what the
+// run reports as simulated time.
 func (r *runState) sleep(d time.Duration) {
 	time.Sleep(d)
 	r.slept += d
+}
+
+// wait is an advance of virtual time inside a wait-until loop (a blocked Send,
+// the final drain). How many iterations such a loop needs can depend on the
+// order in which a sendRoutine's select served simultaneously ready cases, so
+// it is kept out of everything the run records.
+func (r *runState) wait(d time.Duration) {
+	time.Sleep(d)
 }
 
 // tapeReader serves crypto/rand.Reader from a tape stream during a run.
@@ -143,6 +152,7 @@ var _ io.Reader = (*tapeReader)(nil)
 // Run is one run of the rig.
 func Run(c *kernel.Ctx) {
 	r := &runState{c: c, tier: c.Tier, led: newLedger(), sample: map[string]interface{}{}}
+	wall0 := time.Now()
 	fplog := os.Getenv("VERIF_C18_FPLOG")
 	r.traceOn = fplog != ""
 	// fork every stream up front: Fork touches a shared map
@@ -261,6 +271,9 @@ func Run(c *kernel.Ctx) {
 		f, err := os.OpenFile(fplog, os.O_CREATE|os.O_WRONLY|os.O_APPEND, 0644)
 		if err == nil {
 			fmt.Fprintf(f, "%d trace=%x sample=%x slept=%d failed=%v\n", c.Tape.Seed(), h[:8], sh[:8], r.slept, c.Failed())
+			if os.Getenv("VERIF_C18_WALL") != "" { // profiling aid, not part of the determinism line
+				fmt.Fprintf(f, "#wall %d ms=%d %s %v\n", c.Tape.Seed(), time.Since(wall0).Milliseconds(), r.sample["scenario"], r.sample["mode"])
+			}
 			f.Close()
 		}
 	}
